@@ -90,6 +90,7 @@ theorem qual_closed (now : Nat) (arm : Arm) (classic : Bool) (Q : F → Prop) (h
       rw [he]
       exact h l hl
     · rw [he]; exact h2 c now
+  fresh := fun _ _ _ => h1
 
 /-- Every cached quality multiplier is the constructor's / REG3's `1.0` or a value returned by
 `calculate_quality_multiplier` — the predicate of the scalar-generic provenance invariant. -/
